@@ -78,6 +78,7 @@ def call_func(self, path, f, args, kwargs, node):
     if stubs and getattr(f, 'native', None) is not None and f.origin != 'spec':
         cb = stubs.get(f.native)
         if cb is not None:
+            path.abstraction_used = True  # the native replay runs the real function, not the stub
             return path.call(self.fresh(path, cb, cb.name), args, kwargs, node)
     return _orig_call_func(self, path, f, args, kwargs, node)
 
